@@ -351,11 +351,12 @@ pub fn entries_filtered(base: &MpcCase, corrupt: usize, all_idx: bool, salt: usi
         out.push(tap("Beaver: own e share altered (tap)", "beaver_e", Some(j), TapAction::Flip, "faand", 0, wl(&["faand"])));
     }
     for r in indices(40, all_idx, salt) {
-        out.push(tap("aShare: committed and opened check bit flipped, MACs intact (tap)", "fashare_dm", Some(r), TapAction::Flip, "fashare ver", 0, wl(&ASHARE)));
+        // the lie is visible to the victim under its own key: it must abort before it opens d_b
+        out.push(tap("aShare: committed and opened check bit flipped, MACs intact (tap)", "fashare_dm", Some(r), TapAction::Flip, "fashare ver", 0, wl(&["fashare ver"])));
     }
     // two (and four) committed lies in one aShare call: they would cancel in a check aggregated over the rounds
     for set in [vec![0usize, 1], vec![3, 39], vec![5 + salt % 30, 6 + salt % 30], vec![0, 1, 2, 3]] {
-        let mut e = tap("aShare: committed check bit flipped in several rounds (tap)", "fashare_dm", Some(set[0]), TapAction::Flip, "fashare ver", 0, wl(&ASHARE));
+        let mut e = tap("aShare: committed check bit flipped in several rounds (tap)", "fashare_dm", Some(set[0]), TapAction::Flip, "fashare ver", 0, wl(&["fashare ver"]));
         e.attack.taps = set.iter().map(|r| TapSpec { site: "fashare_dm".into(), idx: Some(*r), action: TapAction::Flip }).collect();
         out.push(e);
     }
